@@ -11,4 +11,5 @@ var readyIDs = map[string]bool{
 	"C33": true, "C34": true, "C35": true,
 	"C18": true, "C19": true, "C20": true, "C21": true, "C25": true, "C27": true, "C58": true,
 	"C42": true, "C43": true, "C44": true, "C36": true, "C37": true, "C41": true,
+	"C23": true, "C30": true, "C32": true,
 }
